@@ -42,8 +42,9 @@ theorem dequeFlow_laws : FlowLaws dequeSpec dequeFlow (fun l => l) where
     | reset => simp [dequeSpec, dequeFlow] at h
   init := rfl
 
-theorem monC12_of_linearizable (h : List Obs) (hl : Linearizable dequeSpec h) :
-    monC12.accepts h = true :=
-  flow_of_linearizable dequeSpec dequeFlow _ dequeFlow_laws _ hl
+theorem monC12_of_linearizable (h : List Obs) (hl : Linearizable dequeSpec (h.filterMap Obs.toH)) :
+    monC12.accepts h = true := by
+  rw [monC12, comapOpt_accepts]
+  exact flow_of_linearizable dequeSpec dequeFlow _ dequeFlow_laws _ hl
 
 end UtilModel.LinkedList
